@@ -243,7 +243,11 @@ def build(v, rng, sid):
         pass
     else:
         raise KeyError(kind)
-    return {"id": sid, "variant": v, "scheme": scheme, "partition_on": list(pon), "frame0": frame0, "offsets0": off0,
+    prior = None
+    if st != "drill1" and rng.random() < 0.3:      # the existing dataset has already been appended to once
+        m = rng.choice([1, 2, 4])
+        prior = {"frame": gen_frame(order, st, m, rng), "offsets": offsets(m, min(m, rng.choice([1, 2])))}
+    return {"id": sid, "variant": v, "scheme": scheme, "partition_on": list(pon), "frame0": frame0, "offsets0": off0, "prior": prior,
             "compression0": rng.choice([None, None, "GZIP"]),
             "api": api, "kwargs": kw, "frame1": frame1, "bad_rows": bad_rows}
 
@@ -256,6 +260,9 @@ def create(path, sc):
     df0 = L.to_df(sc["frame0"])
     write(path, df0, file_scheme=sc["scheme"], partition_on=list(sc["partition_on"]), row_group_offsets=list(sc["offsets0"]),
           object_encoding={"b": "int", "s": "utf8"}, has_nulls=False, write_index=False, compression=sc["compression0"])
+    if sc.get("prior"):
+        write(path, L.to_df(sc["prior"]["frame"]), file_scheme=sc["scheme"], partition_on=list(sc["partition_on"]),
+              row_group_offsets=list(sc["prior"]["offsets"]), append=True, compression=sc["compression0"])
 
 
 def abstract_request(sc, pf):
@@ -496,11 +503,16 @@ def run(ctx):
             if v["expect"] == "late":
                 cmds.append(("restoring", res["f0"], L.sx_fops(res["ptrace"])))
                 meta.append(("restoring", short, res, sc))
+            firstw = [o for o in res["ptrace"] if o[0] == "pwrite"]
+            if firstw:
+                cmds.append(("foot_start", res["f0"]))
+                meta.append(("foot_start", short, res, sc))
     pq = C.Pqref()
     outs = pq.batch(cmds)
     pq.close()
     if len(outs) != len(cmds):
         raise RuntimeError("pqref answered %d of %d commands" % (len(outs), len(cmds)))
+    ctx.extra["extraction_vs_kernel_examples"] = L.extract_agreement(ctx, "C18", cmds, outs)
     for (kind, short, res, sc), o in zip(meta, outs):
         v = sc["variant"]
         wrote = any(c[0] not in ("mkdir", "close") for c in res["trace"])
@@ -527,6 +539,10 @@ def run(ctx):
         elif kind == "fops":
             ctx.correspondence("positional file model run_fops(recorded writes/truncates) = bytes on disk", short,
                                C.sha(bytes(o))[:16] if isinstance(o, bytes) else o, C.sha(res["f1"])[:16])
+        elif kind == "foot_start":
+            firstw = [x for x in res["ptrace"] if x[0] == "pwrite"]
+            ctx.correspondence("model foot_start(old bytes) = position of the first write of the real single-file append", short,
+                               o, [firstw[0][1]])
         elif kind == "restoring":
             ctx.correspondence("check_restoring(old bytes, positional trace of the failed single-file append) = true", short, 1, o)
     ctx.extra["late_failures_leaving_orphan_part_files"] = orphans
